@@ -608,6 +608,7 @@ def exec_os_task(task):
             if not out["failures"]:
                 out["failures"].append({"schedule": None, "what": f, "outcome": "os", "class": known_class(case, f),
                                         "final": ob})
+            break           # one failing run is enough (a hang costs strax's whole timeout)
         out["sample"] = {"case": case_tag(case), "how": task.get("how", "iter"), "caller": ob["result"],
                          "savers": ob["savers"]}
     out["wall"] = round(time.time() - t0, 2)
@@ -916,7 +917,11 @@ def run(ctx):
     ctx.assumptions.append("CPython RLock/Condition behave as documented; timeouts are represented by deadlock")
     unit_post_office(ctx)
     unit_threaded(ctx)
-    unit_context(ctx)
+    if any(not v["nfi"] for v in ctx.violations):
+        # a concrete failing input is already in hand: the verdict is settled, skip the most expensive unit
+        ctx.notes.append("context: skipped, the threaded unit already produced a concrete failing input")
+    else:
+        unit_context(ctx)
 
 
 def replay(ctx, obj):
